@@ -5,7 +5,7 @@ import random
 
 
 def gen_spec(rng: random.Random, resources, depth=3, pool=None, allow_fail=True, allow_ctx=False,
-             allow_nocse=True, counter=None, limits=None, infeasible=0.0, twins=True, allow_all=False):
+             allow_nocse=True, counter=None, limits=None, infeasible=0.0, twins=True, allow_all=False, all_modes=(0, 0, 1, 2)):
     pool = pool if pool is not None else []
     counter = counter if counter is not None else [0]
 
@@ -56,7 +56,7 @@ def gen_spec(rng: random.Random, resources, depth=3, pool=None, allow_fail=True,
         n = rng.choice([1, 2, 2, 3, 4])
         children = tuple(rec(d - 1) for _ in range(n))
         if allow_all and k < 0.3:
-            s = (f"a{counter[0]}", "all", rng.choice([0, 0, 1, 2]), children, opts())
+            s = (f"a{counter[0]}", "all", rng.choice(list(all_modes)), children, opts())
         elif k < 0.65:
             s = (f"n{counter[0]}", "list", rng.randint(0, 1), children, opts())
         elif k < 0.85:
